@@ -401,8 +401,248 @@ class KeptNames(FragmentTask):
         ctx.oblige("frame.ids_keep-unchanged", inp["self_"].attrs.get("ids_keep") == self.ids, "P")
 
 
+class SarrayInput(Task):
+    """Chef.sarray_input (real code, bounded skeletons: concrete field names and mechanism species): accepted only when temp
+    and every Y(species) are fields and the species sit contiguously in mechanism order; then [species_start, species_end)
+    is exactly that run (the workers' precondition 0 <= sp_start < sp_end <= ncomp) and the pressure is pressure*one_atm.
+    Cantera's Solution is a stub holding the species names."""
+    prop = "C11"
+    reach = "S"
+    qual = CF + "Chef.sarray_input"
+
+    def __init__(self, fields, species, pressure=2.0):
+        self.fields, self.species, self.pressure = list(fields), list(species), pressure
+        self.name = f"Chef.sarray_input[fields={','.join(fields)};species={','.join(species)};P={pressure}]"
+
+    def setup(self, ex):
+        from pyvc.exec import LIBS, METHODS, Const
+        species = [Record("Species", name=n) for n in self.species]
+        gas = Record("Gas", species_list=species)
+        LIBS[("cantera", "Solution")] = lambda ex_, a, k: gas
+        LIBS[("cantera", "one_atm")] = Const(101325.0)
+        METHODS[("Record:Gas", "species")] = lambda ex_, self_, a, k: list(self_.attrs["species_list"])
+        self_ = Record(CF + "Chef", fields={n: k for k, n in enumerate(self.fields)})
+        return {"self": self_, "args": ["mech.yaml", self.pressure], "gas": gas}
+
+    def post(self, ex, inp, out):
+        ctx = ex.ctx
+        f, sp = self.fields, self.species
+        want = [f"Y({n})" for n in sp]
+        start = f.index(want[0]) if want and want[0] in f else None
+        honourable = "temp" in f and self.pressure is not None and start is not None and f[start:start + len(sp)] == want
+        if not honourable:
+            ctx.oblige("post.refused", out.kind == "exc", "P", note="a plotfile without the contiguous mechanism species / temp / pressure is accepted")
+            return
+        ctx.oblige("raises-nothing", out.kind == "ret", "P", note=str(out.exc) if out.kind != "ret" else "")
+        if out.kind != "ret":
+            return
+        v = out.value
+        ok = isinstance(v, tuple) and len(v) == 4
+        ctx.oblige("post.returns-gas-pressure-start-end", ok, "P")
+        if not ok:
+            return
+        ctx.oblige("post.gas", v[0] is inp["gas"], "P")
+        ctx.oblige("post.pressure-in-pascal", veq(ctx, v[1], self.pressure * 101325.0), "P")
+        ctx.oblige("post.species-run", veq(ctx, v[2], start) and veq(ctx, v[3], start + len(sp)), "P", note=f"{v[2]}, {v[3]}")
+        ctx.oblige("post.worker-precondition", 0 <= start < start + len(sp) <= len(f), "P")
+
+
+class ThermoIndices(FragmentTask):
+    """The `if self.requires_sol:` block closing Chef.__init__ (real code, bounded skeletons): the worker arguments it
+    prepares - id_temp is the temperature component, idx_O2 the mechanism index of O2 (inside the species run handed back
+    by sarray_input), sp_indexes the mechanism indices of the requested species in the requested order (the order of the
+    output names), and the per-shape tables are built once.  sarray_input / set_global_sarrays by contract."""
+    prop = "C11"
+    reach = "S"
+    qual = CF + "Chef.__init__"
+    unordered = True
+
+    @staticmethod
+    def _anchor(s):
+        import ast
+        return isinstance(s, ast.If) and any(FragmentTask.assigns("idx_O2")(x) for x in ast.walk(s))
+    first = _anchor
+    last = _anchor
+
+    def __init__(self, fields, mech_species, recipe, species):
+        self.fields, self.msp, self.recipe, self.species = list(fields), list(mech_species), recipe, species
+        self.name = f"Chef.__init__.thermo-indices[{','.join(fields)};mech={','.join(mech_species)};{recipe};species={species}]"
+
+    def setup(self, ex):
+        from pyvc.exec import METHODS
+        msp = self.msp
+        gas = Record("Gas")
+
+        def species_index(ex_, self_, a, k):
+            if a[0] not in msp:
+                raise SymRaise("ValueError", f"No such species {a[0]}")
+            return msp.index(a[0])
+        METHODS[("Record:Gas", "species_index")] = species_index
+        calls = []
+        s0 = self.fields.index(f"Y({msp[0]})")
+
+        def sarray_input(ex_, args, kw):
+            calls.append(("sarray_input", list(args)))
+            return (gas, 101325.0, s0, s0 + len(msp))
+
+        def set_tables(ex_, args, kw):
+            calls.append(("set_global_sarrays", list(args)))
+            return None
+        self.contracts = {CF + "Chef.sarray_input": sarray_input, CF + "Chef.set_global_sarrays": set_tables}
+        self_ = Record(CF + "Chef", requires_sol=True, fields={n: k for k, n in enumerate(self.fields)}, sp_indexes=[], rx_indexes=[])
+        return {"frame": {"self": self_, "mech": "mech.yaml", "pressure": 1.0, "recipe": self.recipe,
+                          "species": None if self.species is None else list(self.species)},
+                "self_": self_, "calls": calls, "gas": gas, "s0": s0}
+
+    def post(self, ex, inp, out):
+        ctx = ex.ctx
+        msp = self.msp
+        honourable = "O2" in msp and (self.species is None or self.recipe == "user" or all(sp in msp for sp in self.species))
+        if not honourable:
+            ctx.oblige("post.refused", out.kind == "exc", "P")
+            return
+        ctx.oblige("raises-nothing", out.kind == "ret", "P", note=str(out.exc) if out.kind != "ret" else "")
+        if out.kind != "ret":
+            return
+        a = inp["self_"].attrs
+        ctx.oblige("post.state-tables-built-once-after-the-solution", [c[0] for c in inp["calls"]] == ["sarray_input", "set_global_sarrays"], "P")
+        ctx.oblige("post.sarray_input-gets-mechanism-and-pressure", inp["calls"] and inp["calls"][0][1][-2:] == ["mech.yaml", 1.0], "P")
+        ctx.oblige("post.species-run", a.get("sp_start") == inp["s0"] and a.get("sp_end") == inp["s0"] + len(msp) and a.get("gas") is inp["gas"], "P")
+        ctx.oblige("post.id_temp-is-the-temperature-component", a.get("id_temp") == self.fields.index("temp"), "P")
+        ctx.oblige("post.idx_O2-inside-the-species-run", a.get("idx_O2") == msp.index("O2") and 0 <= msp.index("O2") < len(msp), "P")
+        exp = [msp.index(sp) for sp in self.species] if (self.species is not None and self.recipe != "user") else []
+        ctx.oblige("post.species-columns-in-requested-order", list(a.get("sp_indexes")) == exp, "P", note=f"{a.get('sp_indexes')} vs {exp}")
+
+
+class RecipeDispatch(FragmentTask):
+    """The recipe dispatch of Chef.__init__ (the if/elif chain on `recipe`; real code, bounded skeletons): the Cantera
+    attribute, the worker and the NEW field names that go together - by species: one name PREFIX(sp) per requested species
+    in the requested order (the order ThermoIndices gives the columns); by reaction: PREFIXi per requested reaction, the
+    reaction indices handed to the worker unchanged; otherwise the single name; unknown recipes are refused."""
+    prop = "C11"
+    reach = "S"
+    qual = CF + "Chef.__init__"
+    unordered = True
+
+    @staticmethod
+    def _anchor(s):
+        import ast
+        return isinstance(s, ast.If) and any(FragmentTask.assigns("knife")(x) for x in ast.walk(s))
+    first = _anchor
+    last = _anchor
+
+    def __init__(self, recipe, species=None, reactions=None):
+        self.recipe, self.species, self.reactions = recipe, species, reactions
+        self.name = f"Chef.__init__.recipe-dispatch[{recipe};species={species};reactions={reactions}]"
+
+    def setup(self, ex):
+        self_ = Record(CF + "Chef", requires_sol=True, sp_indexes=[], rx_indexes=[])
+        return {"frame": {"self": self_, "recipe": self.recipe, "species": None if self.species is None else list(self.species),
+                          "reactions": None if self.reactions is None else list(self.reactions)}, "self_": self_}
+
+    def post(self, ex, inp, out):
+        ctx = ex.ctx
+        book = {'HRR': ("heat_release_rate", "HeatRelease"), 'ENT': ("enthalpy_mass", "Enthalpy"), 'SRi': ("net_production_rates", "IRm"),
+                'SDi': ("mix_diff_coeffs_mass", "DI"), 'RRi': ("net_rates_of_progress", "R")}
+        if self.recipe not in book:
+            ctx.oblige("post.unknown-recipe-refused", out.kind == "exc", "P")
+            return
+        ctx.oblige("raises-nothing", out.kind == "ret", "P", note=str(out.exc) if out.kind != "ret" else "")
+        if out.kind != "ret":
+            return
+        a = inp["self_"].attrs
+        attr, prefix = book[self.recipe]
+        ctx.oblige("post.cantera-attribute-of-the-recipe", a.get("recipe") == attr, "P", note=str(a.get("recipe")))
+        if self.species is not None:
+            fn, names = "chefs_knife_byspecies_field", [f"{prefix}({sp})" for sp in self.species]
+        elif self.reactions is not None:
+            fn, names = "chefs_knife_byreaction_field", [f"{prefix}{i}" for i in self.reactions]
+            ctx.oblige("post.reaction-columns-in-requested-order", list(a.get("rx_indexes")) == list(self.reactions), "P")
+        else:
+            fn, names = "chefs_knife_single_field", [prefix]
+        k = a.get("knife")
+        ctx.oblige("post.worker-of-the-mode", isinstance(k, FuncVal) and k.qualname == CF + fn, "P", note=str(k))
+        ctx.oblige("post.new-names-in-column-order", list(a.get("outfields", [])) == names, "P", note=f"{a.get('outfields')} vs {names}")
+        ctx.oblige("post.needs-a-solution", a.get("requires_sol") is True, "P")
+
+
+class StateTables(Task):
+    """Chef.set_global_sarrays with PlotfileCooker.unique_box_shapes inlined (real code, bounded skeletons: concrete box
+    lists): after the call the module tables SARRAYS / PRESSURES have an entry for the shape of EVERY box up to the level
+    limit - the workers' table look-ups cannot miss - each a SolutionArray of that gas and shape / the pressure on that
+    shape."""
+    prop = "C11"
+    reach = "S"
+    qual = CF + "Chef.set_global_sarrays"
+    inline = ("amr_kitchen.plotfile_cooker.PlotfileCooker.unique_box_shapes",)
+
+    def __init__(self, boxes, limit):
+        self.boxes, self.limit = boxes, limit
+        self.name = f"Chef.set_global_sarrays[{boxes};limit={limit}]"
+
+    def setup(self, ex):
+        from pyvc.exec import LIBS
+        made = []
+
+        def sol_array(ex_, a, k):
+            r = Record("SolutionArray", gas=a[0], shape=a[1])
+            made.append(r)
+            return r
+        LIBS[("cantera", "SolutionArray")] = sol_array
+        gas = Record("Gas")
+        cells = [{"indexes": [[Vec(list(lo), "array"), Vec(list(hi), "array")] for lo, hi in lv]} for lv in self.boxes]
+        P = z3.Real("P")
+        self_ = Record(CF + "Chef", cells=cells, limit_level=self.limit, gas=gas, P=P)
+        return {"self": self_, "args": [], "gas": gas, "P": P}
+
+    def post(self, ex, inp, out):
+        ctx = ex.ctx
+        ctx.oblige("raises-nothing", out.kind == "ret", "P", note=str(out.exc) if out.kind != "ret" else "")
+        if out.kind != "ret":
+            return
+        sa = ex.globals_model.get((CF[:-1], "SARRAYS"))
+        pr = ex.globals_model.get((CF[:-1], "PRESSURES"))
+        ok = isinstance(sa, dict) and isinstance(pr, dict)
+        ctx.oblige("post.module-tables-set", ok, "P")
+        if not ok:
+            return
+        shapes = {tuple(h - l + 1 for l, h in zip(lo, hi)) for lv in self.boxes[:self.limit + 1] for lo, hi in lv}
+        keys_s = {tuple(as_const(x) if is_z3(x) else x for x in k) for k in sa.keys()}
+        keys_p = {tuple(as_const(x) if is_z3(x) else x for x in k) for k in pr.keys()}
+        ctx.oblige("post.an-entry-for-every-box-shape", shapes <= keys_s and shapes <= keys_p, "P", note=f"{shapes} vs {keys_s}")
+        good = True
+        for k, v in sa.items():
+            kk = tuple(as_const(x) if is_z3(x) else x for x in k)
+            good = good and isinstance(v, Record) and v.cls == "SolutionArray" and v.attrs["gas"] is inp["gas"] and \
+                tuple(as_const(x) if is_z3(x) else x for x in ex.as_iterable(v.attrs["shape"])) == kk
+        ctx.oblige("post.solution-array-of-its-own-shape", good, "P")
+        for k, v in pr.items():
+            kk = tuple(as_const(x) if is_z3(x) else x for x in k)
+            okp = isinstance(v, NDArray) and [as_const(x) if is_z3(x) else x for x in v.shape] == list(kk)
+            ctx.oblige(f"post.pressure-table{list(kk)}", veq(ctx, v, NDArray(list(kk), lambda ix: inp["P"])) if okp else False, "P")
+
+
 def init_tasks(tier):
     out = [KeptNames(3, [2, 0], 1), KeptNames(3, [1, 1], 2), KeptNames(2, [], 1), KeptNames(4, [3, 1, 2], 1)]
+    out += [SarrayInput(["density", "temp", "Y(H2)", "Y(O2)", "Y(N2)", "p"], ["H2", "O2", "N2"]),
+            SarrayInput(["Y(A)", "Y(B)", "temp"], ["A", "B"], 1.0),
+            SarrayInput(["temp", "Y(A)"], ["A"], 0.5),
+            SarrayInput(["Y(A)", "Y(B)", "rho"], ["A", "B"]),                   # no temperature
+            SarrayInput(["temp", "Y(A)", "x", "Y(B)"], ["A", "B"]),            # species not contiguous
+            SarrayInput(["temp", "Y(B)", "Y(A)"], ["A", "B"]),                 # species in another order
+            SarrayInput(["temp", "Y(A)"], ["A", "B"]),                         # a species is missing
+            SarrayInput(["temp", "Y(A)", "Y(B)"], ["A", "B"], None)]           # no pressure
+    out += [RecipeDispatch("HRR"), RecipeDispatch("ENT"), RecipeDispatch("SRi", species=["N2", "H2"]), RecipeDispatch("SDi", species=["O2"]),
+            RecipeDispatch("RRi", reactions=[7, 2, 11]), RecipeDispatch("SRi", species=["H2"], reactions=[3]), RecipeDispatch("XYZ")]
+    out += [StateTables([[((0, 0, 0), (7, 7, 7)), ((8, 0, 0), (15, 7, 3))], [((0, 0, 0), (15, 15, 15)), ((16, 0, 0), (23, 7, 7))]], 1),
+            StateTables([[((0, 0, 0), (7, 7, 7))], [((4, 4, 4), (11, 7, 5))]], 0),
+            StateTables([[((0, 0, 0), (3, 7, 7)), ((4, 0, 0), (7, 7, 7)), ((8, 0, 0), (10, 7, 7))]], 0)]
+    F = ["rho", "Y(H2)", "Y(O2)", "Y(N2)", "temp"]
+    out += [ThermoIndices(F, ["H2", "O2", "N2"], "SRi", ["N2", "H2"]), ThermoIndices(F, ["H2", "O2", "N2"], "SDi", ["O2"]),
+            ThermoIndices(F, ["H2", "O2", "N2"], "HRR", None), ThermoIndices(F, ["H2", "O2", "N2"], "user", ["H2"]),
+            ThermoIndices(["temp", "Y(O2)"], ["O2"], "ENT", None),
+            ThermoIndices(F, ["H2", "O2", "N2"], "SRi", ["N2", "AR"]),        # a species the mechanism does not have
+            ThermoIndices(["temp", "Y(H2)", "Y(N2)"], ["H2", "N2"], "ENT", None)]    # no O2 in the mechanism
     return out
 
 
@@ -411,7 +651,18 @@ def init_canaries():
     return [("Chef.__init__: kept names listed in plotfile order",
              [(f, "        kept_names = [list(self.fields.keys())[fid] for fid in self.ids_keep]",
                "        kept_names = [name for name, fid in self.fields.items() if fid in self.ids_keep]")],
-             ["Chef.__init__.kept-names[nf=3,keep=[2, 0],new=1]"])]
+             ["Chef.__init__.kept-names[nf=3,keep=[2, 0],new=1]"]),
+            ("Chef.__init__: species columns sorted, names in requested order",
+             [(f, "self.sp_indexes = [self.gas.species_index(sp) for sp in species]",
+               "self.sp_indexes = sorted(self.gas.species_index(sp) for sp in species)")],
+             ["Chef.__init__.thermo-indices[rho,Y(H2),Y(O2),Y(N2),temp;mech=H2,O2,N2;SRi;species=['N2', 'H2']]"]),
+            ("Chef.sarray_input: species run one field short",
+             [(f, "species_end = species_start + len(gas.species())", "species_end = species_start + len(gas.species()) - 1")],
+             ["Chef.sarray_input[fields=density,temp,Y(H2),Y(O2),Y(N2),p;species=H2,O2,N2;P=2.0]"]),
+            ("unique_box_shapes: shapes of level 0 only",
+             [("amr_kitchen/plotfile_cooker.py", "        shapes = []\n        for lv in range(self.limit_level + 1):\n            for idx in self.cells[lv]['indexes']:\n                shape = idx[1] - idx[0] + 1",
+               "        shapes = []\n        for lv in range(1):\n            for idx in self.cells[lv]['indexes']:\n                shape = idx[1] - idx[0] + 1")],
+             ["Chef.set_global_sarrays[[[((0, 0, 0), (7, 7, 7)), ((8, 0, 0), (15, 7, 3))], [((0, 0, 0), (15, 15, 15)), ((16, 0, 0), (23, 7, 7))]];limit=1]"])]
 
 
 # ---------------------------------------------------------------------------------------------------------------------
